@@ -467,6 +467,7 @@ func runC14(c *core.Ctx) {
 	go func() {
 		defer swg.Done()
 		tickerRotationProbe(c, base)
+		highIndexRestartProbe(c, base)
 	}()
 	swg.Add(1)
 	go func() {
